@@ -1,4 +1,4 @@
-from asyncio import CancelledError, Task, current_task
+from asyncio import AbstractEventLoop, CancelledError, Task, current_task, get_running_loop
 from collections.abc import (
     AsyncGenerator,
     AsyncIterator,
@@ -6,6 +6,7 @@ from collections.abc import (
     Coroutine,
     Iterable,
 )
+from contextlib import aclosing
 from contextvars import Context, copy_context
 from logging import Logger
 from types import TracebackType
@@ -310,11 +311,39 @@ class ctx:
 
         async def generator() -> AsyncGenerator[Result, None]:
             async with streaming_context:
-                async for result in source(*args, **kwargs):
-                    yield result
+                # closing the source explicitly - within the same context - when not exhausted
+                async with aclosing(source(*args, **kwargs)) as results:
+                    async for result in results:
+                        yield result
+
+        async def iterator() -> AsyncGenerator[Result, None]:
+            # each step of the generator runs within the snapshot of the creation context,
+            # this way it never depends on (nor changes) the context of its consumer
+            loop: AbstractEventLoop = get_running_loop()
+            iterated: AsyncGenerator[Result, None] = generator()
+
+            async def step() -> Result:
+                return await anext(iterated)
+
+            try:
+                while True:
+                    try:
+                        yield await loop.create_task(
+                            step(),
+                            context=context_snapshot,
+                        )
+
+                    except StopAsyncIteration:
+                        break
+
+            finally:  # closed, exhausted or abandoned - finish the generator in its context
+                await loop.create_task(
+                    iterated.aclose(),
+                    context=context_snapshot,
+                )
 
         # finally return it as an iterator
-        return context_snapshot.run(generator)
+        return iterator()
 
     @staticmethod
     def check_cancellation() -> None:
